@@ -30,37 +30,37 @@ META = {
   "level_note": "std's primitives are the yardstick and are uninterpreted (incl. + - * / via the operator traits); abs/signum/floor/ceil/round/trunc/fract/min/max use CBMC's IEEE model; parsed-expression route (infix / call form) not covered.",
  },
  "C01": {
-  "engine": "verus-weave + kani-contracts", "design_ref": "DESIGN.md §4.2, §4.4-4.6, §5 C01",
+  "engine": "verus-weave + kani-contracts", "design_ref": "DESIGN.md §4.2, §4.4-4.6, §5 C01, §12.6a",
   "technique": "Verus proofs of eval_binary (reference reduction) and of unary composition (UnaryOp::apply, FlatOp::apply) + Kani contracts on the order functions (bounded), append_after* (bounded) and the sign rule (complete) + sampled native probes at large sizes",
   "level_text": "Partial. Proved for all sizes: reducing an operand array under a given order is the nearest-live-neighbour reduction; a chain of unary operators composes right-to-left and runs after the binary operator it sits on (UnaryOp::apply, remove_latest, FlatOp::apply). Complete finite domain: unary/binary role of sign-like operators. Bounded: order functions (3 operators quick / 4 thorough, priorities 0..=99, depth 0..=2: permutation, descending priority, left-to-right among equals with only AC-invisible regrouping, unary-carrying operator last in its group), the two statements that select the operator a group's unary chain is attached to (cut from make_expression / flatten_vecs; 3 operators: right-most operator of minimal priority of the group) and append_after / append_after_iter (small chains; long chains only by a sampled native probe). The flat order function with 4 operators (out of CBMC's reach) and the attachment statements with 4 / 5 operators are enumerated exhaustively natively (explicit runs of the same contract bodies, base priorities 0..=3; not a proof).",
   "level_note": "Not covered: tokenizer, make_expression apart from the one selection statement (that the chain is appended to the selected operator, and how depth / flat_ops are filled, stays assumption A-attach), constant folding. Bounded parts are bounded stand-ins, not proofs.",
  },
  "C13": {
-  "engine": KANI, "design_ref": "DESIGN.md §4.5, §5 C13",
+  "engine": KANI, "design_ref": "DESIGN.md §4.5, §5 C13, §12.6a",
   "technique": "Kani: complete harness over the finite domain of is_operator_binary; bounded harness for is_numeric_text; bounded stand-in for the regex tokenizer: a lexical contract (reference tokenizer from the property text) executed natively on every text of a finite palette (exhaustive enumeration)",
   "level_text": "Partial. Sign rule decided over its complete finite domain; number recogniser decided for all ASCII strings of <= 4 bytes (quick) / <= 6 bytes (thorough) against 'maximal digit/dot prefix with >= 1 digit and <= 1 dot'.",
   "level_note": "Operator-name matching, longest match, identifier look-ahead and brace scanning live in the regex tokenizer, out of CBMC's and Verus' reach: not under a deductive contract; tokenize_and_analyze is compared with a reference tokenizer on every concatenation of 1..=4 (thorough: 5) pieces of a 26-piece palette for two operator tables (explicit native enumeration, not a proof).",
  },
  "C09": {
-  "engine": KANI, "design_ref": "DESIGN.md §5 C09",
+  "engine": KANI, "design_ref": "DESIGN.md §5 C09, §12.6a",
   "technique": "Kani: loop-free contract on check_partial_index over all usize pairs; bounded stand-in for the rest: the bookkeeping contract executed natively on every input of a finite palette (exhaustive enumeration)",
   "level_text": "Proved (thin): check_partial_index(i, n, _) is Err iff i >= n, for all usize pairs (complete). NOT proved, bounded: on 12 expressions x {FlatEx, DeepEx} x {strict, relaxed} x every index sequence of length 0..=4 with entries 0..=nvars+1 the public API (partial, partial_nth, partial_iter, *_relaxed) reports every out-of-range index, preserves the variable list after every step, and iterated == sequential, n-th == n singles, order zero == identity, mixed partials agree.",
   "level_note": "The level 'proof' refers to check_partial_index only. Everything behind the public differentiation API needs DeepEx (no result under CBMC, outside Verus) and is covered by explicit native enumeration over a finite palette, never counted as an obligation.",
  },
  "C07": {
-  "engine": KANI, "design_ref": "DESIGN.md §5 C07, §12.6",
+  "engine": KANI, "design_ref": "DESIGN.md §5 C07, §12.6, §12.6a",
   "technique": "Kani: contract on check_parsed_token_preconditions for all token sequences up to a length bound; the same contract body executed natively on EVERY token sequence up to 9 / 10 tokens (exhaustive enumeration, bounded stand-in)",
   "level_text": "Partial, bounded: for every token sequence of length 0, 1 and 2 over the seven token kinds, and for 38 of the 49 prefix classes of length 3, the function rejects exactly the documented malformed shapes (empty, trailing operator, unbalanced / early-closing parentheses, forbidden adjacency). Beyond CBMC's reach the same contract body is executed natively on every sequence of 3..=9 (thorough: 10) tokens over the seven kinds and on every pair-valid sequence of 10..=16 tokens over {number, (, ), binary operator} (explicit enumeration on the real code, not a proof).",
   "level_note": "Bounded stand-in. The operand/operator count check (make_expression, DeepEx::new) is not covered; unknown-character rejection by the regex tokenizer is only enumerated natively over a small palette.",
  },
  "C15": {
-  "engine": KANI, "design_ref": "DESIGN.md §5 C15, §12.6",
+  "engine": KANI, "design_ref": "DESIGN.md §5 C15, §12.6, §12.6a",
   "technique": "Kani: relational contract eval_flatex_consuming_vars == eval_flatex_cloning == reference reduction, with moved-flag and clone-counter operand type; the same contract body executed natively on every shape / order with 3..5 (thorough: 6) nodes (exhaustive enumeration, bounded stand-in)",
   "level_text": "Bounded: 2 symbolic nodes and the shape x y x (quick) / plus two concrete 4-node shapes (thorough), each node a literal-or-variable with optional unary function, symbolic values; every shape, unary flag and application order with 3, 4 and 5 nodes over small value sets enumerated natively (explicit runs, not a proof), 36-node expressions sampled: both evaluators agree with an independent reference, no moved-out placeholder reaches an operator, a variable occurring once is not cloned.",
   "level_note": "Bounded stand-in; eval_vec / eval_iter entry points and larger expressions not covered.",
  },
  "C04": {
-  "engine": KANI, "design_ref": "DESIGN.md §5 C04, §12.6",
+  "engine": KANI, "design_ref": "DESIGN.md §5 C04, §12.6, §12.6a",
   "technique": "Kani: contracts on FlatEx::eval / eval_relaxed arity guards and index binding",
   "level_text": "Partial, bounded: one-node FlatEx over two variables, symbolic variable index, slices of symbolic length 0..=4: eval errs iff length != 2, eval_relaxed iff length < 2, an Ok result is the value at the node's index; eval_vec / eval_iter reject 1 and 3 values (quick) and bind correctly for 2 values (thorough).",
   "level_note": "Name collection/order/lookup (find_parsed_vars, find_var_index) is not under a Kani contract (out of CBMC's reach); the contract body is executed natively on every list of 3, 5, 6 (thorough: 7) tokens over 12 tricky names (exhaustive enumeration, not a proof) and sampled beyond; arity guards on parsed expressions around the inline capacity (15..18 variables), the name lists of a op b and of derivatives, and the deep form's guards are likewise enumerated natively over finite palettes (bounded, not proved). Brace tokenisation and substitution are not covered.",
